@@ -15,6 +15,8 @@ NCPU = 16
 ENV = dict(os.environ)
 ENV["CARGO_NET_OFFLINE"] = "true"
 ENV.pop("RUSTFLAGS", None)  # the harness' .cargo/config.toml supplies --cfg gecs_verif
+# a sanitizer report must not look like "property violated" (exit 1): give it its own status
+ENV["ASAN_OPTIONS"] = "exitcode=99:detect_leaks=0:abort_on_error=0:allocator_may_return_null=1"
 
 
 class Inconclusive(Exception):
@@ -84,6 +86,21 @@ def build_harness(profile, features=(), quiet=True):
         tail = "\n".join(l for l in p.stdout.splitlines() if not l.startswith("warning"))[-4000:]
         raise Inconclusive("building the harness (%s, features %s) failed:\n%s" % (profile, list(features), tail))
     return os.path.join(tdir, profile, "vh-run")
+
+
+def build_harness_asan(features=()):
+    """AddressSanitizer build (nightly, no debug assertions): silent memory errors become crashes."""
+    tdir = target_dir(features, "asan")
+    env = dict(ENV)
+    env["RUSTFLAGS"] = "--cfg gecs_verif -Zsanitizer=address"
+    cmd = ["cargo", "+nightly", "build", "--profile", "rel", "--bin", "vh-run", "--target", "x86_64-unknown-linux-gnu", "--target-dir", tdir]
+    if features:
+        cmd += ["--features", ",".join(features)]
+    p = subprocess.run(cmd, cwd=HARNESS, env=env, stdout=subprocess.PIPE, stderr=subprocess.STDOUT, text=True)
+    if p.returncode != 0:
+        tail = "\n".join(l for l in p.stdout.splitlines() if not l.startswith("warning"))[-4000:]
+        raise Inconclusive("building the ASan harness failed:\n%s" % tail)
+    return os.path.join(tdir, "x86_64-unknown-linux-gnu", "rel", "vh-run")
 
 
 # ----------------------------------------------------------------------------------------------
@@ -190,9 +207,9 @@ def finish(ctx):
     if ctx.violations:
         seen = set()
         for sig, path, msg in ctx.violations:
-            if (sig, path) in seen:
-                continue
-            seen.add((sig, path))
+            if sig in seen:
+                continue  # one replay per signature is enough; the others stay in found/
+            seen.add(sig)
             print("VIOLATION property=%s replay=%s" % (ctx.prop, path))
             print("  signature: %s" % sig)
             print("  %s" % msg[:2000])
@@ -224,6 +241,7 @@ def main(argv):
         print("unknown property %s" % a.prop)
         return 3
     ctx = Ctx(a.prop, a.tier, seed, a.replay)
+    shutil.rmtree(os.path.join(VERIF, "replays", a.prop, "found"), ignore_errors=True)
     import checks
 
     handler = checks.HANDLERS.get(a.prop)
